@@ -437,3 +437,17 @@ Example C13_typed_satisfiable :
   tscope_eqb (fst (tcc a [(2%N, 9#1)])) (trebuild b [(2%N, 9#1)]) = false /\
   tscope_eqb a d = false /\ tscope_eqb d (TSJoint [(0%N, d)]) = false.
 Proof. vm_compute. repeat split; reflexivity. Qed.
+
+Require Import QV.C13.ProofsTHash.
+
+(* eq => equal hash for the kind-aware ==: `tscope_hash` follows the four __hash__ methods with the hash of an expression
+   constant a function of KIND and value (`hK`: hash(sympy.Integer(1)) and hash(sympy.Float(1.0)) may or may not agree),
+   for every string / tuple hash, every number hash that respects ==, every order-independent frozenset combiner *)
+Theorem C13_typed_eq_hash : forall hN hQ hK tup fset,
+  (forall p q, Qeq_bool p q = true -> hQ p = hQ q) ->
+  (forall f p q, Qeq_bool p q = true -> hK f p = hK f q) ->
+  (forall l l', Permutation l l' -> fset l = fset l') ->
+  forall a b, twf a = true -> twf b = true -> tscope_eqb a b = true ->
+  tscope_hash hN hQ hK tup fset a = tscope_hash hN hQ hK tup fset b.
+Proof. intros hN hQ hK tup fset H1 H2 H3 a b Ha Hb. exact (tscope_eqb_hash hN hQ hK tup fset H1 H2 H3 a Ha b Hb). Qed.
+Print Assumptions C13_typed_eq_hash.
